@@ -32,7 +32,7 @@ def run(chk, tier, seed):
     byname = {TG.rust_ty(r["ty"]): i for i, r in roots}
     nA = 45 if tier == "quick" else 200
     prims = [i for i, r in roots if r["ty"]["k"] in ("int", "bool", "char", "f32", "f64", "string", "unit")]
-    As = prims + [i for i, _ in rng.sample(roots, min(nA, len(roots)))]
+    As = prims + [i for n, i in byname.items() if n.startswith("FixE") and "25" not in n] + [i for i, _ in rng.sample(roots, min(nA, len(roots)))]
     As = list(dict.fromkeys(As))
     # stage 1: files and schemas
     lines = []
@@ -64,6 +64,9 @@ def run(chk, tier, seed):
                 Bs.append(byname[sib])
         if a in prims:
             Bs += prims
+        if nameA.startswith("FixE") and "257" not in nameA and "256" not in nameA:
+            # every fixed enum against every other: same variant names and discriminants with different payloads included
+            Bs += [i for n, i in byname.items() if n.startswith("FixE") and "25" not in n]
         Bs += [i for i, _ in rng.sample(roots, 4 if tier == "quick" else 12)]
         for b in dict.fromkeys(Bs):
             add("pair", b, 0, files[a], {"a": a})
